@@ -1,0 +1,21 @@
+package utils
+
+import (
+	"fmt"
+
+	"github.com/massnetorg/mass-core/massutil"
+	"massnet.org/mass-wallet/config"
+)
+
+// DecodeAddress is massutil.DecodeAddress for strings that come from a client.  The
+// library reads the extend version of a bech32 address without checking that the data
+// part holds it ("ms1" + one data character + checksum), which is an index out of range;
+// a request must be answered with an error, not with a panic.
+func DecodeAddress(addr string, net *config.Params) (a massutil.Address, err error) {
+	defer func() {
+		if r := recover(); r != nil {
+			a, err = nil, fmt.Errorf("malformed address: %v", r)
+		}
+	}()
+	return massutil.DecodeAddress(addr, net)
+}
